@@ -35,6 +35,10 @@ TestMsg(ty, dst, ser, rs, fl) ==
   Msg(ty, <<>>, dst, ser, rs, IF ty \in {1, 4} THEN <<47,116>> ELSE <<>>, IF ty \in {1, 4} THEN <<116,46,73>> ELSE <<>>,
       IF ty \in {1, 4} THEN <<77>> ELSE <<>>, IF ty = 3 THEN <<116,46,69>> ELSE <<>>, <<>>, <<>>, fl, 0, "exact")
 
+ReloadCfgs == {[cfg EXCEPT !.maxNames = L[1], !.maxMatch = L[2], !.maxReplies = L[3], !.maxCompleted = L[4], !.maxPerUser = L[5]] :
+                  L \in {<<LimNames, LimMatch, LimReplies, LimCompleted, LimPerUser>>, <<1, 1, 1, 1, 1>>,
+                         <<LimNames, 1, LimReplies, 1, LimPerUser>>}}
+
 MCNext ==
   \E s \in Slot :
     \/ \E u \in Uids : Connect(s, u, FALSE)
@@ -58,6 +62,8 @@ MCNext ==
     \/ "full" \in Ops /\ \E ty \in SendTy, d \in Names \cup {uname[x] : x \in Slot}, ser \in SendSer, rs \in SendRs, fl \in SendFl :
            SendFull(s, TestMsg(ty, d, ser, IF ty \in {2,3} THEN rs ELSE 0, fl), <<>>)      \* the recipient is not reading
     \/ "close" \in Ops /\ ClientClose(s)
+    \* the configuration is read again: every limit switches between the configured value and 1
+    \/ "reload" \in Ops /\ \E c \in ReloadCfgs : c # cfg /\ ReloadConfig(s, 1, 0, c)
     \/ "hostile" \in Ops /\ Corrupt(s)          \* any byte string that is not a valid message
     \/ "act" \in Ops /\ \E n \in Names : StartService(s, 2, 0, n, 0)
     \/ "act" \in Ops /\ \E i \in 1..Len(act.pend) : ChildExit(act.pend[i].n, 1, FALSE) \/ ActTimeout(act.pend[i].n)
@@ -87,6 +93,19 @@ RulesWithinLimit == \A s \in Slot : Len(rules[s]) <= cfg.maxMatch
 PendWithinLimit == \A s \in Slot : CountPend(pend, s) <= cfg.maxReplies
 CompletedWithinLimit == NumCompleted <= cfg.maxCompleted
 PerUserWithinLimit == \A u \in Uids : NumOfUser(u) <= cfg.maxPerUser
+\* C13 with limits that change while the bus runs (ReloadConfig): what exists may exceed a lowered limit, but nothing
+\* ever GROWS at or above the limit in force when the request is processed
+GrowthOnlyBelowLimit ==
+  [][/\ \A s \in Slot : cst[s] = "active" /\ cst'[s] = "active" /\ HeldCount(queue', s) > HeldCount(queue, s)
+                          => HeldCount(queue, s) < cfg.maxNames
+     /\ \A s \in Slot : Len(rules'[s]) > Len(rules[s]) => Len(rules[s]) < cfg.maxMatch
+     /\ \A s \in Slot : CountPend(pend', s) > CountPend(pend, s) => CountPend(pend, s) < cfg.maxReplies
+     /\ NumCompleted' > NumCompleted => NumCompleted < cfg.maxCompleted
+     /\ \A u \in Uids : NumOfUser(u)' > NumOfUser(u) => NumOfUser(u) < cfg.maxPerUser]_vars
+\* reloading evicts nothing and tells nobody but the caller
+ReloadTouchesOnlyCfg ==
+  [][cfg' # [cfg EXCEPT !.epoch = cfg'.epoch] => /\ UNCHANGED <<cst, uname, queue, rules, pend, mon, act, fdx>>
+                                                 /\ \A i \in 1..Len(out') : out'[i].m.org = 0 \/ out'[i].to # out'[i].m.org]_vars
 \* C07 / C18
 NoRulesForAbsent == \A s \in Slot : cst[s] # "active" => rules[s] = <<>>
 \* C09
